@@ -97,13 +97,17 @@ def discharge(obls, timeout_s=30, axioms=None, use_cvc5=False, escalate=True):
     return out
 
 
-def vacuity(obls, axioms=None, sample=6, timeout_s=5):
-    """premises of (a sample of) obligations must be satisfiable-or-unknown, never unsat."""
+def vacuity(eng, axioms=None, timeout_s=5):
+    """Canaries (goal False must NOT be provable): the requires clauses alone, and at least one return path, must not be
+    refutable.  Individual infeasible paths are fine (dead branches), a function none of whose return paths is feasible is
+    not."""
     axioms = core.spec_axioms() if axioms is None else axioms
-    pick = obls[:: max(1, len(obls) // sample)][:sample] if obls else []
-    tasks = [(o.name, to_smt2(o.premises, z3.BoolVal(False), axioms), int(timeout_s * 1000), 0) for o in pick if o.kind != 'frame']
     bad = []
-    for name, r, secs, reason, model in pmap(_solve, tasks):
-        if r == 'unsat':
-            bad.append(name)
+    tasks = [('requires-satisfiable', to_smt2(eng.entry_premises, z3.BoolVal(False), axioms), int(timeout_s * 1000), 0)]
+    tasks += [(nm, to_smt2(pc, z3.BoolVal(False), axioms), int(timeout_s * 1000), 0) for nm, pc in eng.canaries[:8]]
+    res = pmap(_solve, tasks)
+    if res[0][1] == 'unsat':
+        bad.append('requires clauses are contradictory')
+    if len(res) > 1 and all(r[1] == 'unsat' for r in res[1:]):
+        bad.append('no return path is feasible')
     return bad
